@@ -15,4 +15,4 @@ def run(ctx):
         "about it (nullable fields, required non-nullable fields)",
         "Validate() is judged on documents the specification's strict decoder accepts (structure intact), decoded by json.Unmarshal and, "
         "separately, by UnmarshalJSONStrict",
-    ], must=("defaults-str-bool",))
+    ], must=("defaults-str-bool", "falsy-defaults", "case-twins", "two-packages", "two-packages-reversed"))
